@@ -442,6 +442,68 @@ pub fn gif_template() -> Vec<u8> {
     v
 }
 
+/// PNG chunk sequences, JPEG segment sequences and GIF headers with hostile length / dimension fields.
+pub fn picture_structured_strategy() -> BoxedStrategy<PicCase> {
+    let u32x = || prop_oneof![
+        3 => 0u32..40,
+        2 => proptest::sample::select(&[0u32, 1, 0x7FFF_FFFF, 0x8000_0000, 0xFFFF_FFF0, 0xFFFF_FFFB, 0xFFFF_FFFC, 0xFFFF_FFFD, 0xFFFF_FFFE, 0xFFFF_FFFF][..]),
+        1 => any::<u32>(),
+    ];
+    let u16x = || prop_oneof![3 => 0u16..40, 2 => proptest::sample::select(&[0u16, 1, 2, 3, 0x7FFF, 0x8000, 0xFFFE, 0xFFFF][..]), 1 => any::<u16>()];
+    // PNG: (declared length or None = true length, type, body)
+    let chunk = (
+        prop_oneof![3 => Just(None), 2 => u32x().prop_map(Some)],
+        prop_oneof![3 => Just(*b"PLTE"), 2 => Just(*b"tEXt"), 1 => Just(*b"IDAT"), 1 => Just(*b"IEND"), 1 => Just(*b"IHDR"), 1 => any::<[u8; 4]>()],
+        proptest::collection::vec(any::<u8>(), 0..24),
+    );
+    let png = (u32x(), u32x(), any::<u8>(), prop_oneof![4 => Just(3u8), 3 => proptest::sample::select(&[0u8, 2, 4, 6][..]), 1 => any::<u8>()], prop_oneof![4 => Just(13u32), 1 => u32x()], proptest::collection::vec(chunk, 0..5), 0usize..6)
+        .prop_map(|(w, h, depth, ctype, ihdr_len, chunks, cut)| {
+            let mut v = b"\x89PNG\r\n\x1a\n".to_vec();
+            v.extend_from_slice(&ihdr_len.to_be_bytes());
+            v.extend_from_slice(b"IHDR");
+            v.extend_from_slice(&w.to_be_bytes());
+            v.extend_from_slice(&h.to_be_bytes());
+            v.extend_from_slice(&[depth, ctype, 0, 0, 0]);
+            v.extend_from_slice(&[0; 4]);
+            for (len, ty, body) in chunks {
+                v.extend_from_slice(&len.unwrap_or(body.len() as u32).to_be_bytes());
+                v.extend_from_slice(&ty);
+                v.extend_from_slice(&body);
+                v.extend_from_slice(&[0; 4]);
+            }
+            let n = v.len().saturating_sub(cut.saturating_sub(3));
+            v.truncate(n);
+            PicCase { data: v }
+        });
+    // JPEG: (marker, declared length or None = true length, body)
+    let seg = (
+        prop_oneof![3 => proptest::sample::select(&[0xC0u8, 0xC1, 0xC2, 0xC3, 0xC5, 0xCF][..]), 3 => proptest::sample::select(&[0xE0u8, 0xE1, 0xDB, 0xC4, 0xFE, 0xDD][..]), 1 => proptest::sample::select(&[0xD8u8, 0xD9, 0xDA, 0xFF, 0x00, 0x01, 0xD0][..]), 1 => any::<u8>()],
+        prop_oneof![3 => Just(None), 2 => u16x().prop_map(Some)],
+        proptest::collection::vec(any::<u8>(), 0..16),
+    );
+    let jpeg = (proptest::collection::vec(seg, 0..6), 0usize..6).prop_map(|(segs, cut)| {
+        let mut v = vec![0xFF, 0xD8];
+        for (m, len, body) in segs {
+            v.push(0xFF);
+            v.push(m);
+            v.extend_from_slice(&len.unwrap_or(body.len() as u16 + 2).to_be_bytes());
+            v.extend_from_slice(&body);
+        }
+        let n = v.len().saturating_sub(cut.saturating_sub(3));
+        v.truncate(n);
+        PicCase { data: v }
+    });
+    let gif = (any::<bool>(), u16x(), u16x(), any::<u8>(), proptest::collection::vec(any::<u8>(), 0..12)).prop_map(|(v89, w, h, flags, mut tail)| {
+        let mut v = if v89 { b"GIF89a".to_vec() } else { b"GIF87a".to_vec() };
+        v.extend_from_slice(&w.to_le_bytes());
+        v.extend_from_slice(&h.to_le_bytes());
+        v.push(flags);
+        v.append(&mut tail);
+        PicCase { data: v }
+    });
+    prop_oneof![5 => png, 4 => jpeg, 1 => gif].boxed()
+}
+
 pub const RULE: &str = "(a) independently serialised metadata sections (every block type, cue sheets up to the track/index limits) with \
 0-4 hostile edits: 24-bit block sizes, type/last bytes, arbitrary bytes, big-endian 32-bit counts/lengths written anywhere, \
 truncation, missing last flag, trailing bytes - through BlockList::read, read_blocks, read_info and read_block::<_, T> for all seven T; \
@@ -449,7 +511,7 @@ every list that parses has all accessors invoked (duration, decoded_len, channel
 for several channel/depth pairs / display / catalog) and is re-serialised; (b) raw bytes behind a fLaC marker; (c) cue texts from the \
 grammar generator with 0-5 line-level mutations (huge minutes, decreasing indices, index 255, duplicated/missing/swapped lines, odd \
 quoting, non-ASCII) or arbitrary text, parsed for totals 0, the model's, u64::MAX, +1, 588, random; (d) PNG/JPEG/GIF-prefixed bytes with \
-every header byte position swept over 0..=255 (exhaustive per position) and random tails through Picture::new. Oracle: no unwind, \
+every header byte position swept over 0..=255, every 4-/2-byte window set to extreme values (both exhaustive), generated PNG chunk / JPEG segment / GIF header sequences with hostile length and dimension fields, and random tails, through Picture::new. Oracle: no unwind, \
 bounded polls after end of data, peak heap <= 64 MiB + 64 x input length; both build profiles. Non-trivial = an input that parsed and \
 had its accessors invoked, or sniffer input beyond the magic bytes.";
 
@@ -460,7 +522,7 @@ pub fn run(ctx: &Ctx) {
     ctx.regress(&HostileMeta);
     ctx.regress(&RawMetadata);
     ctx.regress(&CueText);
-    ctx.regress_named(&PictureSniff { name: "picture-random" }, &["picture-byte-sweep"]);
+    ctx.regress_named(&PictureSniff { name: "picture-random" }, &["picture-byte-sweep", "picture-field-sweep", "picture-structured"]);
     let n = match (t, checked) {
         (Tier::Quick, false) => 200_000,
         (Tier::Quick, true) => 150_000,
@@ -535,6 +597,41 @@ pub fn run(ctx: &Ctx) {
         Some(PicCase { data: d })
     });
     ctx.set_exhaustive("picture-byte-sweep", true, "every byte position of a PNG, a JPEG and a GIF header template set to each of 0..=255, and every truncation");
+    // every 4-byte and 2-byte window of the templates overwritten with each extreme value
+    const U32S: [u32; 14] = [0, 1, 2, 0x7FFF_FFFF, 0x8000_0000, 0x8000_0001, 0xFFFF_FFF0, 0xFFFF_FFFA, 0xFFFF_FFFB, 0xFFFF_FFFC, 0xFFFF_FFFD, 0xFFFF_FFFE, 0xFFFF_FFFF, 0x0100_0000];
+    const U16S: [u16; 9] = [0, 1, 2, 3, 4, 0x7FFF, 0x8000, 0xFFFE, 0xFFFF];
+    let mut windex = vec![];
+    let mut wtotal = 0u64;
+    for (i, tp) in templates.iter().enumerate() {
+        windex.push((wtotal, i));
+        wtotal += (tp.len() as u64) * (U32S.len() + U16S.len()) as u64;
+    }
+    let wsweep = PictureSniff { name: "picture-field-sweep" };
+    ctx.enumerate(&wsweep, wtotal, |k| {
+        let j = windex.partition_point(|(o, _)| *o <= k) - 1;
+        let (o, i) = windex[j];
+        let r = (k - o) as usize;
+        let per = U32S.len() + U16S.len();
+        let (at, which) = (r / per, r % per);
+        let mut d = templates[i].clone();
+        if which < U32S.len() {
+            for (q, b) in U32S[which].to_be_bytes().iter().enumerate() {
+                if at + q < d.len() {
+                    d[at + q] = *b;
+                }
+            }
+        } else {
+            for (q, b) in U16S[which - U32S.len()].to_be_bytes().iter().enumerate() {
+                if at + q < d.len() {
+                    d[at + q] = *b;
+                }
+            }
+        }
+        Some(PicCase { data: d })
+    });
+    ctx.set_exhaustive("picture-field-sweep", true, "every 4-byte window of the three templates set to each of 14 extreme 32-bit values and every 2-byte window to each of 9 extreme 16-bit values");
+    // structure-aware images: chunk / segment sequences with hostile length fields
+    ctx.search(&PictureSniff { name: "picture-structured" }, n / 2, picture_structured_strategy);
     ctx.search(&PictureSniff { name: "picture-random" }, n / 2, || {
         (0u8..3, proptest::collection::vec((any::<u16>(), any::<u8>()), 0..6), proptest::collection::vec(any::<u8>(), 0..60))
             .prop_map(|(k, edits, mut tail)| {
@@ -556,6 +653,8 @@ pub fn engines() -> Vec<Box<dyn crate::engine::DynEngine>> {
         Box::new(RawMetadata),
         Box::new(CueText),
         Box::new(PictureSniff { name: "picture-byte-sweep" }),
+        Box::new(PictureSniff { name: "picture-field-sweep" }),
+        Box::new(PictureSniff { name: "picture-structured" }),
         Box::new(PictureSniff { name: "picture-random" }),
     ]
 }
